@@ -20,8 +20,6 @@ From GZ Require Import C13.Model C13.Proofs C13.ProofsB C13.ProofsC.
 Import ListNotations.
 Open Scope Z_scope.
 
-Definition etcd_state (h : list bev) (r : nat) : amap Z := fold_left bapply (firstn r h) [].
-
 Inductive dlv :=
 | DLoad (r : nat) (snap : list (Z * Z)) (calls : list lev)
 | DWatch (i : nat).
